@@ -36,7 +36,14 @@ pub fn rand_number(rng: &mut Rng) -> String {
         1 => rng.below(10).to_string(),
         2 => rng.below(100000).to_string(),
         3 => format!("{}", (rng.next() % (1u64 << 33))),
-        4 => format!("{}", rng.next()),
+        4 => if rng.chance(1, 2) { format!("{}", rng.next()) } else {
+            // a digit string of 19..22 digits: values on either side of 2^64 in every leading-digit band
+            // (a wrap-around test that compares with the previous accumulator is fooled only in some bands)
+            let n = 19 + rng.below(4);
+            let mut t = String::new();
+            for k in 0..n { t.push((b'0' + if k == 0 { 1 + rng.below(9) } else { rng.below(10) } as u8) as char); }
+            t
+        },
         5 => ["4294967295", "4294967296", "18446744073709551615", "18446744073709551616", "2147483648"][rng.below(5)].into(),
         6 => format!("00{}", rng.below(1000)),
         _ => rng.below(70).to_string(),
@@ -436,6 +443,17 @@ pub fn rand_elements(rng: &mut Rng, p: &TreeProfile) -> Vec<FormatElement> {
         v.push(e);
     }
     if rng.chance(2, 3) { v.push(FormatElement::Special(FormatSpecial::Newline)); }
+    if p.exotic && rng.chance(1, 3) {
+        // element lists only the public types can express: empty literals (anywhere, also after the final
+        // newline), adjacent literals, a newline that is present but not last
+        match rng.below(5) {
+            0 => v.push(FormatElement::Literal(String::new())),
+            1 => { v.push(FormatElement::Literal(String::new())); v.push(FormatElement::Literal(String::new())); }
+            2 => v.insert(0, FormatElement::Literal(String::new())),
+            3 => { let at = rng.below(v.len() + 1); v.insert(at, FormatElement::Literal(String::new())); }
+            _ => { v.push(FormatElement::Literal("a".into())); v.push(FormatElement::Literal("b".into())); }
+        }
+    }
     v
 }
 
@@ -583,7 +601,7 @@ pub fn rand_chain(rng: &mut Rng, n: usize) -> Expression {
         let idx = if rng.chance(1, 8) && i > 0 { rng.below(i) } else { i };   // repeat an earlier resource sometimes
         if rng.chance(1, 10) {
             // a name RELATED to an earlier one (./x, x/, x//y, X, xi, x/i, ../x vs .x ...), same terminator kind
-            if let Some(v) = related(rng, false) {
+            if let Some(v) = related(rng, false).filter(|v| n <= 12 || !v.contains('\\')) {
                 items.push(match rng.below(4) { 0 => E::Action(Action::FilePrint(v)), 1 => E::Action(Action::FilePrintNull(v)),
                     2 => op(Operator::Or(E::Test(Test::Name(v)), E::Test(Test::True))), _ => op(Operator::Or(E::Test(Test::InsensitivePath(v)), E::Test(Test::True))) });
                 continue;
@@ -594,7 +612,11 @@ pub fn rand_chain(rng: &mut Rng, n: usize) -> Expression {
             2 => E::Action(Action::FilePrintNull(format!("f{}", idx))),
             3 => E::Action(Action::FilePrintFormatted(format!("f{}", idx), nl_fmt(rng, true))),
             4 => E::Action(Action::FilePrintFormatted(format!("f{}", idx), nl_fmt(rng, false))),
-            5 => if rng.chance(1, 4) { E::Test(Test::Name(["a\\b", "a\\\\b", "q\"x", "q\\\"x", "t\u{1}", "t\\x01"][rng.below(6)].to_string())) } else { E::Test(Test::Name(format!("n{}*", idx))) },
+            // (what a backslash in a pattern means is left to the runtime, and a program holding one is only checked
+            // statically: long chains, whose point is that every resource is EXERCISED, do without)
+            5 => if rng.chance(1, 4) && n <= 12 { E::Test(Test::Name(["a\\b", "a\\\\b", "q\"x", "q\\\"x", "t\u{1}", "t\\x01"][rng.below(6)].to_string())) }
+                 else if rng.chance(1, 4) { E::Test(Test::Name(["q\"x", "t\u{1}", "~a", "q\"x*"][rng.below(4)].to_string())) }
+                 else { E::Test(Test::Name(format!("n{}*", idx))) },
             6 => { let f = format!("n{}", idx); remember(&f); E::Test(Test::Name(f)) }
             7 => E::Test(Test::InsensitiveName(format!("n{}*", idx))),
             8 => E::Test(Test::InsensitiveName(format!("N{}", idx))),
@@ -653,6 +675,24 @@ pub fn affix_programs() -> Vec<Expression> {
                 out.push(chain(vec![E::Action(mk(&b)), E::Action(mk(&v))]));
                 out.push(chain(vec![E::Action(mk(&v)), E::Action(mk(&b)), E::Action(Action::FilePrint(v.clone()))]));
             }
+        }
+    }
+    // strings that need escaping in the emitted text, requested TWICE, and beside their own escaped spelling
+    // (either order): a resource table keyed by the raw text in one place and by the escaped text in another
+    // stops sharing identical requests, or shares different ones
+    let esc = |p: &str| { let mut o = String::new(); for c in p.chars() { match c { '\\' => o.push_str("\\\\"), '"' => o.push_str("\\\""),
+                              c if (c as u32) < 0x20 || c as u32 == 0x7f => o.push_str(&format!("\\x{:02x};", c as u32)), c => o.push(c) } } o };
+    for p in ["a\"b", "a\\b", "a\\\\b", "t\u{1}z", "q\u{7f}", "x\ny", "\"", "\\", "a\\\"b", "~a", "\u{e9}\"", "*\"*", "[\"]"] {
+        let e1 = esc(p);
+        let e2 = esc(&e1);
+        for k in 0..4 {
+            let mk = |v: &str| match k { 0 => wrap(Test::Name(v.to_string())), 1 => wrap(Test::InsensitivePath(v.to_string())),
+                                         2 => E::Action(Action::FilePrint(v.to_string())), _ => E::Action(Action::FilePrintNull(v.to_string())) };
+            let tail = if k < 2 { Action::PrintNull } else { Action::Print };
+            out.push(chain(vec![mk(p), mk(p), E::Action(tail.clone())]));
+            out.push(chain(vec![mk(p), mk(&e1), mk(p), E::Action(tail.clone())]));
+            out.push(chain(vec![mk(&e1), mk(p), mk(&e1), E::Action(tail.clone())]));
+            out.push(chain(vec![mk(p), mk(&e1), mk(&e2), mk(&e1), E::Action(tail.clone())]));
         }
     }
     out
